@@ -445,7 +445,8 @@ def int_binop(op, a, b):
         if cy is not None and cy > 0:
             return VInt(x % y)
         q = z3.If(y > 0, x / y, (-x) / (-y))
-        return VInt(x - y * q)
+        _fact(z3.Implies(y > 0, z3.And(0 <= x % y, x % y < y, x == (x / y) * y + x % y)))
+        return VInt(z3.If(y > 0, x % y, x - y * q))
     if op == '<<':
         if cy is None:
             raise Unsupported('symbolic shift amount')
